@@ -249,14 +249,22 @@ def _conclude(mod, pid, tier, seed, cases, results, started, known, t0, worker_l
                 break
 
     # minimum-reach requirements => inconclusive, not held
+    extra_vals = {}
+    extra_fn = getattr(mod, "extra_evidence", None)
+    if extra_fn:
+        try:
+            extra_vals = jsonable(extra_fn(tier, results))
+        except Exception as exc:  # pragma: no cover
+            extra_vals = {"extra_evidence_error": repr(exc)}
     unmet = []
     if not replay:
         req = getattr(mod, "REQUIRE", {})
         if callable(req):
             req = req(tier)
         for name, minimum in req.items():
-            if counters.get(name, 0) < minimum:
-                unmet.append("%s=%d<%d" % (name, counters.get(name, 0), minimum))
+            have = counters.get(name, extra_vals.get(name, 0) if isinstance(extra_vals.get(name, 0), int) else 0)
+            if have < minimum:
+                unmet.append("%s=%d<%d" % (name, have, minimum))
 
     replay_dir = os.path.join(ROOT, "replays", pid)
     lines = []
@@ -301,12 +309,7 @@ def _conclude(mod, pid, tier, seed, cases, results, started, known, t0, worker_l
     }
     if getattr(mod, "EXHAUSTIVE", {}).get(tier):
         ev["coverage"]["exhaustive"] = True
-    extra = getattr(mod, "extra_evidence", None)
-    if extra:
-        try:
-            ev["coverage"].update(jsonable(extra(tier, results)))
-        except Exception as exc:  # pragma: no cover
-            ev["coverage"]["extra_evidence_error"] = repr(exc)
+    ev["coverage"].update(extra_vals)
     if not replay and not os.environ.get("VERIF_NO_EVIDENCE"):
         os.makedirs(os.path.join(ROOT, "evidence"), exist_ok=True)
         json.dump(ev, open(os.path.join(ROOT, "evidence", "%s.json" % pid), "w"), indent=1)
